@@ -172,28 +172,6 @@ void check_grid(vh::Case& c, const Spec& S) {
     double gv = b.filtration(p);
     if (!c.expect(gv == mval[p] && b.get_cell_data(p) == mval[p], S.vertex_input ? "value.max_over_vertices" : "value.min_over_top_cells", cs,
                   "cell " + vh::str(p) + " " + G.show(coord[p]) + " value " + dstr(gv) + " model " + dstr(mval[p]))) return;
-
-    // incidence numbers: +-1, the documented formula, and alternating along the enumerated boundary
-    for (size_t k = 0; k < gb[p].size(); ++k) {
-      int inc = b.compute_incidence_between_cells(p, gb[p][k]);
-      int wanti = 0;
-      for (size_t t = 0; t < mfaces[p].size(); ++t) if (mfaces[p][t] == gb[p][k]) wanti = msign[p][t];
-      c.count("cmp.incidence");
-      if (inc != 1 && inc != -1) { c.violation("incidence.unit", cs, "incidence(" + vh::str(p) + "," + vh::str(gb[p][k]) + ")=" + vh::str(inc)); return; }
-      if (inc != wanti) {
-        c.violation("incidence.documented_formula", cs + (wraps ? ",wraps" : ""), "compute_incidence_between_cells(" + vh::str(p) + " " + G.show(coord[p]) + "," +
-                    vh::str(gb[p][k]) + " " + G.show(coord[gb[p][k]]) + ")=" + vh::str(inc) + " documented formula gives " + vh::str(wanti));
-        return;
-      }
-      if (k > 0) {
-        int prev = b.compute_incidence_between_cells(p, gb[p][k - 1]);
-        if (prev != -inc) {
-          c.violation("incidence.alternates_along_boundary", cs + (wraps ? ",wraps" : ""), "boundary of " + vh::str(p) + " = " + vh::vstr(gb[p]) +
-                      ": incidences at positions " + vh::str(k - 1) + "," + vh::str(k) + " are " + vh::str(prev) + "," + vh::str(inc));
-          return;
-        }
-      }
-    }
   }
 
   // ---- boundary and coboundary are converse relations (from the library's answers only)
@@ -224,6 +202,33 @@ void check_grid(vh::Case& c, const Spec& S) {
       c.violation("boundary.dd_zero", sig0 + ",celldim=" + vh::str(mdim[p]), "dd(" + vh::str(p) + " " + G.show(coord[p]) + ") has coefficient " + vh::str(kv.second) +
                   " on cell " + vh::str(kv.first) + " " + G.show(coord[kv.first]) + "; boundary=" + vh::vstr(gb[p]));
       return;
+    }
+  }
+
+  // ---- incidence numbers: +-1, the documented formula, and alternating along the enumerated boundary
+  for (size_t p = 0; p < N; ++p) {
+    const std::string cs = sig0 + ",celldim=" + vh::str(mdim[p]);
+    bool wraps = false;
+    for (size_t f : gb[p]) for (int i = 0; i < d; ++i) if (S.per[i] && coord[p][i] == 2 * S.n[i] - 1 && coord[f][i] == 0) wraps = true;
+    for (size_t k = 0; k < gb[p].size(); ++k) {
+      int inc = b.compute_incidence_between_cells(p, gb[p][k]);
+      int wanti = 0;
+      for (size_t t = 0; t < mfaces[p].size(); ++t) if (mfaces[p][t] == gb[p][k]) wanti = msign[p][t];
+      c.count("cmp.incidence");
+      if (inc != 1 && inc != -1) { c.violation("incidence.unit", cs, "incidence(" + vh::str(p) + "," + vh::str(gb[p][k]) + ")=" + vh::str(inc)); return; }
+      if (inc != wanti) {
+        c.violation("incidence.documented_formula", cs + (wraps ? ",wraps" : ""), "compute_incidence_between_cells(" + vh::str(p) + " " + G.show(coord[p]) + "," +
+                    vh::str(gb[p][k]) + " " + G.show(coord[gb[p][k]]) + ")=" + vh::str(inc) + " documented formula gives " + vh::str(wanti));
+        return;
+      }
+      if (k > 0) {
+        int prev = b.compute_incidence_between_cells(p, gb[p][k - 1]);
+        if (prev != -inc) {
+          c.violation("incidence.alternates_along_boundary", cs + (wraps ? ",wraps" : ""), "boundary of " + vh::str(p) + " = " + vh::vstr(gb[p]) +
+                      ": incidences at positions " + vh::str(k - 1) + "," + vh::str(k) + " are " + vh::str(prev) + "," + vh::str(inc));
+          return;
+        }
+      }
     }
   }
 
